@@ -87,7 +87,7 @@ func c04Build(cs *c04Case, cfg fiber.Config, form string, rec *[]c04Hit) *fiber.
 			if op.Kind == "mount" && form != "group" {
 				sub := fiber.New(cfg)
 				if form == "mount-open" {
-					cur.Use(p, sub)
+					cur.Use([]string{p}, sub) // the prefix in its list form (Use accepts a string or a list of strings)
 				}
 				stack = append(stack, frame{r: sub, sub: sub, prefix: p})
 			} else {
